@@ -372,10 +372,25 @@ Section LexFacts.
     apply Nat.leb_le in H1, H2. apply andb_true_iff; split; apply Nat.leb_le; lia.
   Qed.
 
+  Lemma special_cases c t : special c = Some t -> In c [42;43;63;124;40;41;123;125].
+  Proof.
+    intros H. destruct (Nat.lt_ge_cases c 126) as [Hlt|Hge].
+    - assert (Hall : forallb (fun c => match special c with
+                                       | Some _ => mem_nat c [42;43;63;124;40;41;123;125]
+                                       | None => true end) (seq 0 126) = true) by (vm_compute; reflexivity).
+      rewrite forallb_forall in Hall. specialize (Hall c ltac:(apply in_seq; lia)). rewrite H in Hall.
+      clear H. cbn in Hall.
+      repeat match type of Hall with
+             | (if Nat.eqb ?a ?b then _ else _) = true => destruct (Nat.eqb_spec a b); [subst; cbn; tauto|]
+             end.
+      discriminate.
+    - exfalso. replace c with (126 + (c - 126)) in H by lia. cbn in H. discriminate.
+  Qed.
+
   Lemma special_printable c t : special c = Some t -> is_printable c = true.
   Proof.
-    unfold special. intros H.
-    repeat (destruct c as [|c]; [try discriminate; reflexivity|]). discriminate.
+    intros H. apply special_cases in H. cbn in H.
+    repeat (destruct H as [H|H]; [subst c; reflexivity|]). contradiction.
   Qed.
 
   Lemma unit_printable i l : unit_at i l -> forall k, i <= k < i + l -> is_printable (pr k) = true.
@@ -396,11 +411,11 @@ Section LexFacts.
   Proof.
     intros Hi H k Hk. pose proof (match_range_item_inv i Hi) as Hc. rewrite H in Hc.
     inversion Hc as [|l1 Hu Hn|l1 rl Hu H45 Hlt H93 Hu2]; subst.
-    - eapply unit_printable; eauto.
+    - apply (unit_printable _ _ Hu). lia.
     - assert (Hcs : k < i + l1 \/ k = i + l1 \/ S (i + l1) <= k) by lia. destruct Hcs as [Hcs|[->|Hcs]].
-      + eapply unit_printable; eauto. lia.
+      + apply (unit_printable _ _ Hu). lia.
       + rewrite H45. reflexivity.
-      + eapply unit_printable; eauto. lia.
+      + apply (unit_printable _ _ Hu2). lia.
   Qed.
 
   Lemma items_printable i k : items_to i k -> forall j, i <= j <= k -> is_printable (pr j) = true.
@@ -408,20 +423,20 @@ Section LexFacts.
     induction 1 as [i H1 H2|i il k H1 H2 H3 H4 IH]; intros j Hj.
     - replace j with i by lia. rewrite H2. reflexivity.
     - destruct (Nat.lt_ge_cases j (i + il)) as [Hlt|Hge].
-      + eapply item_printable; eauto. lia.
+      + apply (item_printable i il ltac:(lia) H3). lia.
       + apply IH. lia.
   Qed.
 
   Lemma prim_printable i l : prim_at i l -> forall k, i <= k < i + l -> is_printable (pr k) = true.
   Proof.
     intros [l' H1 H2|k' H1 H2 H3|H1 H2 H3 H4] k Hk.
-    - eapply unit_printable; eauto.
+    - apply (unit_printable _ _ H2). lia.
     - pose proof (items_to_bounds _ _ H3) as Hb.
       destruct (Nat.lt_ge_cases k (i + set_hd i)) as [Hlt|Hge].
       + unfold set_hd in *. destruct (Nat.eqb_spec (pr (S i)) 94) as [H94|H94].
         * assert (Hc : k = i \/ k = S i) by lia. destruct Hc as [->| ->]; [rewrite H1|rewrite H94]; reflexivity.
         * replace k with i by lia. rewrite H1. reflexivity.
-      + eapply items_printable; eauto. lia.
+      + apply (items_printable _ _ H3). lia.
     - replace k with i by lia. assumption.
   Qed.
 
@@ -432,7 +447,7 @@ Section LexFacts.
     inversion Hc as [|t' H1 H2|H1 H2 H3|l H1 H2 H3 H4]; subst.
     - replace k with i by lia. eapply special_printable; eauto.
     - replace k with i by lia. apply dec_printable; assumption.
-    - eapply prim_printable; eauto.
+    - apply (prim_printable _ _ H4). lia.
   Qed.
 
   (* a set lexeme ends with its closing bracket, and that bracket exists *)
